@@ -141,6 +141,27 @@ def run(item, ctx, tier, seed):
                                 ctx.fail("roc-needs-exactly-one-axis", dict(case, given=list(bad)), observed="no exception", expected="ValueError")
                             except ValueError:
                                 pass
+                        # the model is a plain dataclass: after its fields are re-assigned it is the model of the new
+                        # parameters (analytic rates, thresholds and roc() of the current fields)
+                        try:
+                            ds.mu_pos, ds.sigma_pos, ds.mu_neg, ds.sigma_neg = mp + 0.5, sp * 2.5, mun - 0.25, sn * 0.5
+                            assigned = True
+                        except Exception:  # noqa - a frozen model cannot be updated: nothing to check
+                            assigned = False
+                        if assigned:
+                            c2 = dict(case, history="queries, then mu/sigma fields re-assigned", new=[mp + 0.5, sp * 2.5, mun - 0.25, sn * 0.5])
+                            for nm, mu, si in (("fnr", mp + 0.5, sp * 2.5), ("fpr", mun - 0.25, sn * 0.5)):
+                                ts_ = np.array([mu - 2 * si, mu - 0.3 * si, mu, mu + 1.1 * si])
+                                ok, rr = guarded(ctx, nm, c2, lambda: np.asarray(getattr(ds, nm)(ts_), dtype=float))
+                                ctx.tick()
+                                want_r = [refs.ND.cdf((x - mu) / si) if nm == "fnr" else 1 - refs.ND.cdf((x - mu) / si) for x in ts_.tolist()]
+                                if ok and not np.allclose(rr, want_r, rtol=1e-9, atol=1e-12):
+                                    ctx.fail("rate-is-normal-cdf", dict(c2, metric=nm), observed=rr, expected=want_r)
+                                ok, th = guarded(ctx, "threshold_at_" + nm, c2, lambda: np.asarray(getattr(ds, "threshold_at_" + nm)(np.array([0.1, 0.5, 0.9])), dtype=float))
+                                ctx.tick()
+                                want_t = [mu + si * (refs.ND.inv_cdf(r) if nm == "fnr" else -refs.ND.inv_cdf(r)) for r in (0.1, 0.5, 0.9)]
+                                if ok and not np.allclose(th, want_t, rtol=1e-9, atol=1e-9):
+                                    ctx.fail("threshold-at-rate-is-normal-quantile", dict(c2, metric=nm), observed=th, expected=want_t)
                         ctx.outcome((mp, mn, sp, sn, sc))
         ctx.sample({"kind": "normal", "mu_pos": mp, "mu_neg": MU_NEG, "sigma": b["sigma"], "rates": b["rates"]})
         return None
@@ -183,6 +204,25 @@ def run(item, ctx, tier, seed):
                 for j in range(0, d + 1):
                     if math.gcd(j, d) == 1 or j == 0:
                         combos.append((n, j, d))
+        near = []
+        if item["part"] == 0:
+            # n*p a hair (1e-13 .. 2^-40 relative) below a whole number: far more than rounding, still floor = k - 1
+            for n_, k_ in ((1000, 500), (4096, 3072), (37, 11), (100, 29), (7, 7), (640, 1)):
+                for rel in (2.0 ** -40, 1e-13, 2.0 ** -44, 3e-12):
+                    near.append((n_, k_, rel))
+        for n_, k_, rel in near:
+            p = (k_ / n_) * (1 - rel)
+            exact = math.floor(F(n_) * F(p))
+            case = {"n": n_, "p": p, "n_times_p": f"{k_} * (1 - {rel})"}
+            ctx.state()
+            ctx.tick()
+            ctx.nontrivial()
+            ok, data = guarded(ctx, "bernoulli-sample", case, lambda: BernoulliDataset(p=p).sample(n_, random=False, rng=rngtree.Oracle()))
+            if ok:
+                data = np.asarray(data)
+                want = {exact, int(math.floor(n_ * p))}
+                if data.shape != (n_,) or int(data.sum()) not in want:
+                    ctx.fail("bernoulli-floor-of-n-times-p", case, observed=int(data.sum()), expected=sorted(want))
         for n, j, d in combos[item["part"]::item["parts"]]:
             p = j / d
             case = {"n": n, "p": f"{j}/{d}"}
